@@ -1,8 +1,14 @@
 (* C01 -- reading arbitrary bytes never panics and never escapes the supplied segments.
-   Statements only; each is closed by [exact] of a lemma proved in Core/SafetyProofs.v.
+   Statements only; each is closed by [exact] of a lemma proved in Core/SafetyProofs.v (reader),
+   Value/EqualSafe.v, Value/CanonSafe.v, Core/CopySafe.v (consumers), Core/EndToEnd.v and
+   Frame/FramePackedSafe.v (from raw bytes).  NOT covered by any theorem here: text.Marshal and
+   pogs.Extract on hostile bytes (their models are not composed with the reader model; C19 / C20
+   runs only, see LEVEL_NOTE in props/C01.py).
 
-   Standing assumptions (trusted base): [msg_ok m]: every segment has at most maxSegmentSize
-   (2^32-8) bytes and every byte is 0..255; uint/int are 64 bits; the repaired configuration
+   Standing assumptions: [msg_ok m]: every segment has at most maxSegmentSize (2^32-8) bytes and
+   every byte is 0..255 - a hypothesis of the theorems of the first sections, PROVED in the last
+   section for every message the framing layer hands out (C01_unmarshal_msg_ok ...), so trusted only
+   for a Message over an application-supplied Arena; uint/int are 64 bits; the repaired configuration
    (cfg_strict, cfg_root, fx_bit true); the model Core/Reader.v, Core/ReadOps.v corresponds to
    the Go code as far as the C01 correspondence run shows. *)
 From CV Require Import Core.SafetyProofs.
@@ -93,31 +99,23 @@ Proof. exact bitlist_prefix_refuted. Qed.
 Print Assumptions C01_bitlist_prefix_refuted.
 
 (* ------------------------------------------------------------------ non-vacuity *)
-(* a struct with one data word, a text field "hi" and a composite list of two structs *)
-Definition ex_msg : segs :=
-  [[0;0;0;0;1;0;2;0;  42;0;0;0;0;0;0;0;  5;0;0;0;26;0;0;0;  5;0;0;0;23;0;0;0;
-    104;105;0;0;0;0;0;0;  8;0;0;0;1;0;0;0;  1;0;0;0;0;0;0;0;  2;0;0;0;0;0;0;0]].
-Definition ex_ops : list op :=
-  [ORoot; OSPtr 0 0; OText 1; OSPtr 0 1; OLStruct 2 1; OUint 3 0 4; OWalk 0 8 8 10; ORLimit].
-Definition ex_cfg := mkCfg 1000 4 true true.
-Definition ex_fix := mkFix true true true.
-
+(* rd_ex_msg (Core/SafetyProofs.v): a struct with one data word, a text field "hi" and a
+   composite list of two structs; rd_ex_ops reads them and walks the whole tree *)
 Example C01_hypotheses_satisfiable :
-  msg_ok ex_msg /\ run_dom ex_cfg ex_fix ex_msg (init_state ex_cfg) ex_ops = true.
-Proof.
-  split; [|vm_compute; reflexivity].
-  repeat constructor; cbn; try lia; unfold maxSegmentSize; lia.
-Qed.
+  msg_ok rd_ex_msg /\ run_dom rd_ex_cfg rd_ex_fix rd_ex_msg (init_state rd_ex_cfg) rd_ex_ops = true.
+Proof. exact rd_ex_hypotheses. Qed.
+Print Assumptions C01_hypotheses_satisfiable.
 
 Example C01_nontrivial_run :
   exists p0 p1 p2 p3,
-  run_ops ex_cfg ex_fix ex_msg ex_ops =
+  run_ops rd_ex_cfg rd_ex_fix rd_ex_msg rd_ex_ops =
   [VPtr (Ok p0); VPtr (Ok p1); VBytes (Ok (Some [104; 105])); VPtr (Ok p2); VPtr (Ok p3); VNum (Ok 2);
    VTree (TStruct [42;0;0;0;0;0;0;0]
             [TPrim 1 3 [104; 105; 0];
              TComp 2 (mkOS 8 0) [TStruct [1;0;0;0;0;0;0;0] []; TStruct [2;0;0;0;0;0;0;0] []]]) 938;
    VNum (Ok 938)].
-Proof. do 4 eexists. vm_compute. reflexivity. Qed.
+Proof. exact rd_ex_run. Qed.
+Print Assumptions C01_nontrivial_run.
 
 (* ================================================================== recursive consumers *)
 (* C01 also covers the recursive consumers on ARBITRARY bytes: equality, canonicalisation, deep
@@ -186,6 +184,7 @@ Example C01_copy_unaligned_refuted :
     write_ptr_asfound 8 true (mkW m0 unaligned_msg 1000) 0 0 InSrc e false = Panic /\
     exists w', write_ptr 8 true (mkW m0 unaligned_msg 1000) 0 0 InSrc e false = Ok w'.
 Proof. exact copy_unaligned_refuted. Qed.
+Print Assumptions C01_copy_unaligned_refuted.
 
 Example C01_canon_complist_refuted :
   let c := mkCfg 0 0 true true in
@@ -193,6 +192,7 @@ Example C01_canon_complist_refuted :
   run_canon 10 c (mkCFix false true true (mkFix true true true)) complist_msg SelRoot = KPanic /\
   exists bs, run_canon 10 c (mkCFix true true true (mkFix true true true)) complist_msg SelRoot = KOk bs.
 Proof. exact canon_complist_refuted. Qed.
+Print Assumptions C01_canon_complist_refuted.
 
 (* ================================================================== from raw bytes *)
 (* "For any byte strings supplied as the segments of a message (any segment count, any arena,
@@ -261,6 +261,25 @@ Theorem C01_pdecode_n_then_read_safe : forall P U orc hc bc ru mx c fx n k,
   fst o <> FR.DPanic /\ forall segs, fst o = FR.DMsg segs -> msg_ok segs /\ read_safe c fx segs.
 Proof. exact pdecode_n_then_read_safe. Qed.
 Print Assumptions C01_pdecode_n_then_read_safe.
+
+(* ... and for ANY packed byte stream P, malformed ones included (Frame/FramePackedSafe.v, with the
+   packed.Reader invariant of Packed/ReadCallProofs2.v): the packed Decoder behaves like the plain
+   Decoder over the longest prefix U that unpacks, ended by the verdict of the rest (io.EOF or
+   io.ErrUnexpectedEOF); while messages come out, outcome k is the same: no panic, msg_ok, safe
+   to read.  This subsumes the statement above (no premise on P besides being bytes). *)
+From CV Require Frame.FramePackedSafe.
+Theorem C01_pdecode_n_then_read_safe_any : forall P orc hc bc ru mx c fx n k,
+  bytes_ok P -> (0 <= mx < FR.two64)%Z -> repaired c fx -> (k < n)%nat ->
+  let U := fst (CV.Packed.ReadCallProofs2.unpack_partial P) in
+  let fin := CV.Packed.ReadCallProofs2.verdict (snd (CV.Packed.ReadCallProofs2.unpack_partial P)) in
+  let outs_plain := snd (FR.decode_n (FR.mkD (FR.mkReader [U] fin) hc bc ru mx) n) in
+  let outs_packed := snd (FP.pdecode_n (FR.mkD (FP.p_init orc P) hc bc ru mx) n) in
+  CV.Frame.FrameSim.all_msgs (firstn k outs_plain) = true ->
+  let o := nth k outs_packed (FR.DEof, []) in
+  nth k outs_packed (FR.DEof, []) = nth k outs_plain (FR.DEof, []) /\
+  fst o <> FR.DPanic /\ forall segs, fst o = FR.DMsg segs -> msg_ok segs /\ read_safe c fx segs.
+Proof. exact CV.Frame.FramePackedSafe.pdecode_n_then_read_safe_any. Qed.
+Print Assumptions C01_pdecode_n_then_read_safe_any.
 
 (* (3) the recursive consumers, from raw bytes *)
 Theorem C01_equal_from_bytes_safe : forall b1 b2 sa sb fuel ca cb fx capsa capsb same sela selb,
